@@ -270,6 +270,9 @@ func (p *Parser) parseBuffer(buf []byte, last bool) error {
 				continue
 			}
 		case numComma:
+			if len(p.starts) == 0 {
+				return p.newError(off, "unexpected comma")
+			}
 			p.add(p.num.AsNode())
 			if 0 < len(p.starts) && p.starts[len(p.starts)-1] == -1 {
 				p.mode = keyMap
